@@ -406,6 +406,11 @@ def selectFrame (sel : Option Int) (ib px : Nat) (raw : Array Nat) : List Float 
     (List.range px).map fun i =>
       Float.ofNat ((List.range ib).foldl (fun acc b => acc + raw.getD (b * px + i) 0) 0) / Float.ofNat ib
 
+/-- `ZYGO_PHASE_RES_FACTORS`: phase-resolution code of the header ↦ counts per wave factor -/
+def modelPhaseRes : List (Nat × Int) := [(0, 4096), (1, 32768), (2, 131072)]
+/-- `ZYGO_PHASE_RES_FACTORS[res]`; `none` = `KeyError` (the reader rejects the file) -/
+def phaseResOf (table : List (Nat × Int)) (res : Nat) : Option Int := (table.find? (fun p => p.1 == res)).map (·.2)
+
 def offHeaderSize : Nat := 6
 def offAcWidth : Nat := 52
 def offAcHeight : Nat := 54
@@ -423,14 +428,14 @@ def zygoReadL (prec32 : Bool) (sel : Option Int) (f : List Nat) :
   let ih := hdrU16 f offAcHeight
   let ib := (modelBuckets (hdrU16 f offAcBuckets)).toNat
   let ilen := (modelIlen iw ih (hdrU16 f offAcBuckets)).toNat
-  match readCountsAt hdr ilen f (h * w) with
-  | none => none
-  | some counts =>
+  match readCountsAt hdr ilen f (h * w), phaseResOf modelPhaseRes (hdrU16 f offPhaseRes) with
+  | none, _ => none
+  | _, none => none
+  | some counts, some Ri =>
     let W := hdrF32 f offWvl
     let S := hdrF32 f offScale
     let O := hdrF32 f offObliq
-    let res := hdrU16 f offPhaseRes
-    let R : Float := if res = 0 then 4096.0 else if res = 1 then 32768.0 else 131072.0
+    let R : Float := Float.ofInt Ri
     let out := permute 0 counts (flipIdx zygoReadFlip h w)
     let raw := ((List.range ilen).map (intensityAt f hdr)).toArray
     some (h, w, hdrF32 f offLatRes, W, out.map (zygoValueF prec32 W S O R), readWarnsAt hdr ilen f (h * w),
